@@ -27,7 +27,7 @@ RULE = (
     'orders and outcome mixes of 2-3 bare futures at neighbouring positions.  Non-trivial = at least two awaited items, or '
     'a failing/killed item; distinct = distinct event-log digest.'
 )
-BUDGET = {'quick': (30000, 55), 'thorough': (2_000_000, 600)}
+BUDGET = {'quick': (80000, 55), 'thorough': (2_000_000, 600)}
 COMPONENTS = dict(common.COMPONENTS, real=common.COMPONENTS['real'] + [
     'plumpy.workchains (WorkChain._do_step, to_context, Waiting with awaitables, steppers)', 'Process.launch (children)'])
 ASSUMPTIONS = ['FIFO ready queue']
